@@ -1,6 +1,6 @@
 (* C15 — SOCKS5 upstream dialogue is well-formed and faithful. *)
 From Coq Require Import List NArith Bool.
-From TT Require Import Lib.Res Lib.BytesL Lib.Utf8 Lib.Base64 Generated.Consts Model.Socks5 Spec.Rfc1928
+From TT Require Import Lib.Res Lib.BytesL Lib.Utf8 Lib.Base64 Generated.Consts Generated.SocksFacts Model.Socks5 Spec.Rfc1928
   Proofs.Socks5Proofs.
 Import ListNotations.
 Open Scope N_scope.
@@ -65,6 +65,30 @@ Print Assumptions no_stream_without_success.
 Example ex_domain_reply_then_data :
   connect_rest ANone (DIp [1;2;3;4]) 80 ([5;0] ++ [5;0;0;3;2;104;105;0;80] ++ [161;162]) = [161;162].
 Proof. vm_compute. reflexivity. Qed.
+
+(* end to end (socks5_forwarder.rs): the client of the endpoint is told 200 only when the dialogue succeeded, i.e.
+   only after an offered method, accepted credentials and a success reply; every failure is a 407 or a 502 *)
+Theorem ok_answer_only_after_a_successful_dialogue :
+  forall a d port server em o,
+    connect a d port server = (em, o) ->
+    (fst (socks_result o) = 200 ->
+       exists m rest, server = 5 :: m :: rest
+                      /\ (m = 0 \/ (m = method_of a /\ exists r2, rest = 1 :: 0 :: r2)))
+    /\ (fst (socks_result o) = 200 \/ fst (socks_result o) = 407 \/ fst (socks_result o) = 502).
+Proof.
+  intros a d port server em o H. split.
+  - intros S. assert (o = OTcp).
+    { destruct o as [|c| | |]; cbn in S; try discriminate; try reflexivity.
+      destruct ((c =? 3) || (c =? 4)); [discriminate|]. destruct (c =? 6); discriminate. }
+    subst o. exact (proceeds_only_if_offered_and_success_proof a d port server em H).
+  - destruct o as [|c| | |]; cbn; auto.
+    destruct ((c =? 3) || (c =? 4)); [auto|]. destruct (c =? 6); auto.
+Qed.
+Print Assumptions ok_answer_only_after_a_successful_dialogue.
+
+Theorem forwarder_code_facts : SOCKS_OUTCOME_MAPPING_AS_MODELLED = true /\ SOCKS_AUTH_CHOICE_AS_MODELLED = true.
+Proof. split; exact eq_refl. Qed.
+Print Assumptions forwarder_code_facts.
 
 (* RFC 1928 section 7 *)
 Theorem udp_wrap_unwrap :
